@@ -173,13 +173,13 @@ def traces(target, rng, tier):
     q = tier == "quick"
     out = []
     if kind == "phytx":
-        for k in range(5 if q else 40):
+        for k in range(5 if q else 16):
             en = int(rng.random() < 0.8)
-            length = rng.choice([3, 50, 20 * L]) if L < 100 else rng.choice([3, 200, 600] if q else [3, 200, 800, 2500])
+            length = rng.choice([3, 50, 20 * L]) if L < 100 else rng.choice([3, 200, 600] if q else [3, 200, 800, 1500])
             out.append([dict(sink_data=d, sink_ctrl=c, can_send_skp=idle, enable_scrambling=en, tx_electrical_idle=0)
                         for d, c, idle in _link_stream(rng, length, L, p_idle_run=rng.choice([0.2, 0.6, 1.0]))])
         # long busy stretches followed by a few idle cycles: debts of 3..7 ordered sets
-        for k in range(1 if q else 8):
+        for k in range(1 if q else 3):
             busy = rng.choice([3, 5, 7]) * (L // 4 + 1)
             tr = []
             for rep in range(2):
@@ -189,7 +189,7 @@ def traces(target, rng, tier):
                        for _ in range(rng.choice([1, 2, 5]))]
             out.append(tr)
         # outside the environment (electrical idle toggling, can_send_skp next to data, starvation): correspondence only
-        for k in range(2 if q else 20):
+        for k in range(2 if q else 8):
             tr = []
             e = 1
             for _ in range(rng.choice([20, 6 * L if L < 100 else (400 if q else 1500)])):
@@ -202,9 +202,9 @@ def traces(target, rng, tier):
             out.append([dict(sink_data=rng.getrandbits(32), sink_ctrl=0, can_send_skp=int(t > 730), enable_scrambling=1,
                              tx_electrical_idle=0) for t in range(760)])
     elif kind == "ski":
-        for k in range(5 if q else 40):
+        for k in range(5 if q else 16):
             p_v = rng.choice([1.0, 1.0, 0.9, 0.5]); p_r = rng.choice([1.0, 1.0, 0.95, 0.6]); p_c = rng.choice([0.02, 0.3, 0.9])
-            length = rng.choice([3, 50, 20 * L]) if L < 100 else rng.choice([3, 300, 700] if q else [3, 300, 2500])
+            length = rng.choice([3, 50, 20 * L]) if L < 100 else rng.choice([3, 300, 700] if q else [3, 300, 1500])
             out.append([dict(valid=int(rng.random() < p_v), data=rng.getrandbits(32), ctrl=rng.getrandbits(4),
                              can_send_skip=int(rng.random() < p_c), source_ready=int(rng.random() < p_r))
                         for _ in range(length)])
